@@ -87,7 +87,7 @@ PROPS = {
         "ops": [("c10", "RunSys", {"quick": 360, "thorough": 6000}),
                 ("c01", "RunC01", {"quick": 160, "thorough": 2000}),
                 ("sys", "RunSys", {"quick": 60, "thorough": 1000}),
-                ("c14", "RunC14", {"quick": 150, "thorough": 3000})],
+                ("c14", "RunC14", {"quick": 150, "thorough": 3000}), ("c06", "RunC06", {"quick": 40, "thorough": 800})],
         "rule": "op c10: every LightClientMessage union variant (default content), SendLastState / SendLastStateProof / SendBlocksProof(V1) / "
                 "SendTransactionsProof(V1) with boundary values {0,1,2,2^32-1,2^63-1,2^63,2^64-1} / {0,1,2^256-2,2^256-1} on every numeric field, header "
                 "vectors of length 0,1,2,3,11, consistent and inconsistent chain-root commitments, well-formed and garbage extra table fields, "
@@ -118,7 +118,7 @@ PROPS = {
         "trusted_base": ["modelled: CheckPoints::add_check_points, finalize_check_points (cleaning, length_max, per-index vote, retain, write)"],
     },
     "C03": {
-        "ops": [("c03", "RunC03", {"quick": 300, "thorough": 5000})],
+        "ops": [("c03", "RunC03", {"quick": 300, "thorough": 5000}), ("c06", "RunC06", {"quick": 40, "thorough": 800})],
         "rule": "storage-level histories (6..22 events) on a real RocksDB: set_scripts (all/partial/delete, start numbers at, below and above progress), filter_block of "
                 "generated blocks (spends of live outputs incl. same-block chains, multi-script and typed cells), update_block_number, rollback_to_block followed by a "
                 "different branch, late add_fetched_tx answers, min-filtered updates, pending matched records; script pools with and without prefix-related args; "
@@ -136,7 +136,7 @@ PROPS = {
         "trusted_base": ["modelled: commit_prove_state (fork detection, matched-record sweep), rollback_to_block"],
     },
     "C09": {
-        "ops": [("c03", "RunC03", {"quick": 300, "thorough": 5000})],
+        "ops": [("c03", "RunC03", {"quick": 300, "thorough": 5000}), ("c06", "RunC06", {"quick": 40, "thorough": 800})],
         "rule": "storage-level histories in which set_scripts (all / partial / delete, empty lists, duplicates, start numbers above and below progress) is issued between "
                 "filter_block / update_block_number / min-filtered updates / pending matched records; every step's dump compared with Model/Store.v; after every set_scripts "
                 "the script set is compared with an independent replace / upsert / remove computation, pending records must be gone, and when the progress invariant held "
